@@ -236,6 +236,29 @@ def fingerprint(relpath, names):
     return out
 
 
+class time_limit:
+    """`with time_limit(20):` raises TimeoutError inside the block after that many seconds (SIGALRM; main thread only): for calls
+    into the implementation that take milliseconds on the unchanged tree and may loop or blow up on a changed one"""
+
+    def __init__(self, seconds):
+        self.seconds = float(seconds)
+
+    def __enter__(self):
+        import signal
+
+        def handler(signum, frame):
+            raise TimeoutError("no result within %.0f s" % self.seconds)
+        self.old = signal.signal(signal.SIGALRM, handler)
+        signal.setitimer(signal.ITIMER_REAL, self.seconds)
+        return self
+
+    def __exit__(self, *exc):
+        import signal
+        signal.setitimer(signal.ITIMER_REAL, 0.0)
+        signal.signal(signal.SIGALRM, self.old)
+        return False
+
+
 class CorrespondenceBroken(Exception):
     """the implementation no longer does something the model's tie to it relies on (e.g. it did not call the library routine
     whose result the model is fed): not a harness error, a broken correspondence"""
